@@ -1,11 +1,13 @@
 import GqlProofs.Cost
+import GqlProofs.OverlapCost
 /-! # C19 — Planning work is polynomial in document size (plan sites)
 
 Property theorems only. `M` = `GqlModel.Cost`: the planner of /repo/plan.go with the two `verif` step counters
 threaded through (`collect` = calls of `collectInto`, `pms` = calls of `planMergedSelectionsForType`); the
 harness compares both counters with the real library on scaled families (`go_count == M_count`).
-The counters of the overlap rule (validation) are modelled and bounded in `GqlModel/Validate/Overlap.lean`
-(worker c02b); here they are only measured on the real code (fitted growth exponent).
+The counters of the overlap rule (validation) are modelled by worker c02b in `GqlModel/Validate/Overlap.lean` (imported,
+not duplicated); the section "Validation" below proves the closed bound `overlap_cost_poly` on top of that model, and
+the harness compares all three validation counters of the real rule with it on every case.
 
 All statements hold for every schema, every document (also unvalidated: cyclic fragments, unknown names,
 duplicate fragment names), every operation name, every variable assignment and every world.
@@ -13,8 +15,9 @@ duplicate fragment names), every operation name, every variable assignment and e
 FULL STATEMENT of the property ("the work done to validate and to plan a document grows at most polynomially …
 does not grow with the number of object types an abstract field could resolve to nor exponentially with nesting
 depth or with the number of fragments that spread one another. Executing a request plans only the runtime types
-actually encountered"): for the PLAN sites it is the conjunction of the five theorems below; the VALIDATION part
-is c02b's `overlap` bound theorems plus the sampled exponent. -/
+actually encountered"): for the PLAN sites it is the conjunction of the plan theorems below; the VALIDATION part
+is `overlap_cost_poly` / `overlap_cost_quartic` (calls of `findConflict` ≤ 5·N⁴, every factor a syntactic size) together
+with c02b's memo-body bounds; that the growth is in practice quadratic is measured (fitted exponent), not proved. -/
 namespace GqlModel.Cost
 
 /-- number of `collectInto` calls `PlanQuery` can make: the operation's own selection set, the inline fragments
@@ -305,6 +308,89 @@ theorem plan_never_out_of_fuel (s : Schema) (doc : Document) (opName : String) (
       simp only [rootPlan]; rw [collectTop_oof]
     rw [h1, hok.2.2]; rfl
 
+end GqlModel.Cost
+
+/-! ## Validation: a closed polynomial bound on the work of OverlappingFieldsCanBeMerged
+
+`GqlModel.Validate.Overlap.overlapM` is worker c02b's model of the memoised rule, with the counters of the three `verif`
+sites: `nFC` (`findConflict`), `cntFF` (`collectConflictsBetweenFieldsAndFragment` bodies), `cntBF`
+(`collectConflictsBetweenFragments` bodies). c02b's `memo_body_at_most_once` (Props/C02Graph) bounds `cntFF ≤ 2·S·Fn` and
+`cntBF ≤ 2·F²`; the theorems below close the gap to the TOTAL work. -/
+namespace GqlModel.Validate.Overlap
+open GqlModel.Validate GqlModel.Validate.Graph
+
+/-- T2 `overlap_cost_poly`, general form (any environment whose fragment table comes from the document, any list of
+visited selection sets of the document, ANY fuel): the number of `findConflict` calls is at most
+`Σ_{visited sets} fields(set)² + nFieldsDoc² · (2·nSets·nSpreadNames + 2·|fragment table|²)`. -/
+theorem overlap_cost_poly_gen (d : Document) (e : Env) (hloc : locsDistinct d = true)
+    (hT : ∀ f, f ∈ e.tbl → f.sel ∈ allSets d) (fuel : Nat)
+    (sets : List (TCtx × SelectionSet)) (hsets : ∀ cs, cs ∈ sets → cs.2 ∈ allSets d) :
+    (overlapRun e fuel sets).1.nFC ≤
+      nFieldsDoc d * nFieldsDoc d * (sets.length + 2 * (nSets d * nSpreadNames d) + 2 * (e.tbl.length * e.tbl.length)) := by
+  have h := overlapRun_cost (d := d) (e := e) hloc hT fuel sets hsets
+  have hs := sum_sq_le sets (nFieldsDoc d) (fun cs hcs => fieldsSet_le_doc (hsets cs hcs))
+  have hinit : phi d e OState.init =
+      nFieldsDoc d * nFieldsDoc d * (2 * (nSets d * nSpreadNames d) + 2 * (e.tbl.length * e.tbl.length)) := by
+    simp only [phi, bodyBudget, remaining, OState.init, List.length_nil, Nat.sub_zero, Nat.zero_add,
+      length_univFF, length_univBF]
+  have hle : (overlapRun e fuel sets).1.nFC ≤ phi d e (overlapRun e fuel sets).1 := by
+    simp only [phi]; omega
+  rw [hinit] at h
+  generalize nFieldsDoc d * nFieldsDoc d = K at *
+  have e1 : K * (sets.length + 2 * (nSets d * nSpreadNames d) + 2 * (e.tbl.length * e.tbl.length)) =
+      K * (2 * (nSets d * nSpreadNames d) + 2 * (e.tbl.length * e.tbl.length)) + sets.length * K := by
+    rw [Nat.mul_comm sets.length K, ← Nat.mul_add]
+    congr 1
+    omega
+  rw [e1]
+  omega
+
+/-- T2 `overlap_cost_poly`. For every schema and every document whose selection sets start at distinct bytes (true of
+every parsed document; the drivers check it on every input), also an invalid one with cyclic fragments, the memoised
+rule as run by `ValidateDocument` calls `findConflict` at most
+`overlapBound d = nFieldsDoc² · (nSets + 2·nSets·nSpreadNames + 2·nFrags²)` times — every factor a syntactic size. -/
+theorem overlap_cost_poly (s : Schema) (d : Document) (hloc : locsDistinct d = true) :
+    (overlapM s d).1.nFC ≤ overlapBound d := by
+  have h := overlap_cost_poly_gen d (envM s d) hloc (fragDefs_sel_sub d) (fuelFor d) (typedSelSets s d)
+    (typedSelSets_sub s d)
+  rw [length_typedSelSets] at h
+  exact h
+
+/-- T2 (corollary): at most `5 · N⁴` calls for `N = docSize d` = fields + selection sets + distinct spread names +
+fragment definitions. (On the measured families the growth is at most quadratic in the document size.) -/
+theorem overlap_cost_quartic (s : Schema) (d : Document) (hloc : locsDistinct d = true) :
+    (overlapM s d).1.nFC ≤ 5 * docSize d ^ 4 := by
+  have h := overlap_cost_poly s d hloc
+  unfold overlapBound at h
+  have hA : nFieldsDoc d ≤ docSize d := by unfold docSize; omega
+  have hB : nSets d ≤ docSize d := by unfold docSize; omega
+  have hC : nSpreadNames d ≤ docSize d := by unfold docSize; omega
+  have hD : nFrags d ≤ docSize d := by unfold docSize; omega
+  generalize docSize d = N at *
+  have h1 : nFieldsDoc d * nFieldsDoc d ≤ N * N := Nat.mul_le_mul hA hA
+  have h2 : nSets d * nSpreadNames d ≤ N * N := Nat.mul_le_mul hB hC
+  have h3 : nFrags d * nFrags d ≤ N * N := Nat.mul_le_mul hD hD
+  have h4 : nSets d ≤ N * N := Nat.le_trans hB (Nat.le_mul_self N)
+  have h5 : nSets d + 2 * (nSets d * nSpreadNames d) + 2 * (nFrags d * nFrags d) ≤ 5 * (N * N) := by omega
+  have h6 := Nat.mul_le_mul h1 h5
+  have e : N ^ 4 = N * N * (N * N) := by
+    simp [Nat.pow_succ, Nat.mul_assoc]
+  rw [e]
+  have e2 : N * N * (5 * (N * N)) = 5 * (N * N * (N * N)) := by
+    rw [Nat.mul_left_comm]
+  omega
+
+/-- the other two validation counters, restated from c02b's `memo_body_at_most_once` (no new proof) -/
+theorem overlap_memo_bodies (s : Schema) (d : Document) :
+    (overlapM s d).1.cntFF ≤ 2 * (nSets d * nSpreadNames d) ∧ (overlapM s d).1.cntBF ≤ 2 * (nFrags d * nFrags d) := by
+  have h := overlapRun_inv (d := d) (e := envM s d) (fragDefs_sel_sub d) (fuelFor d) (typedSelSets s d)
+    (typedSelSets_sub s d)
+  exact h.counts
+
+end GqlModel.Validate.Overlap
+
+namespace GqlModel.Cost
+
 /-! ## Non-vacuity -/
 
 private def L : Loc := Loc.none
@@ -350,3 +436,26 @@ example : planCost (extend exSchema ((List.range 16).map (fun i => .object s!"T{
 example : ∃ root ss, selectOp exSchema exDoc "" = .ok (root, ss) := ⟨_, _, rfl⟩
 
 end GqlModel.Cost
+
+namespace GqlModel.Validate.Overlap
+private def onm (s : String) : Name := ⟨s, ⟨0, 0⟩⟩
+
+/-- `{ a: leaf  a: q { leaf }  ...F }  fragment F on Q { a: q { leaf ...F } }` with the byte positions a parser assigns
+(distinct selection-set locations); `F` spreads itself below a field, so the document is invalid — the bound holds anyway -/
+def ovDoc : Document :=
+  { defs := [ .operation .query none [] []
+                (.mk [.field (some (onm "a")) (onm "leaf") [] [] none ⟨2, 3⟩,
+                      .field (some (onm "a")) (onm "q") [] []
+                        (some (.mk [.field none (onm "leaf") [] [] none ⟨12, 13⟩] ⟨10, 14⟩)) ⟨5, 14⟩,
+                      .spread (onm "F") [] ⟨16, 20⟩] ⟨0, 22⟩) ⟨0, 22⟩,
+              .fragment (onm "F") (.named "Q" ⟨40, 41⟩) []
+                (.mk [.field (some (onm "a")) (onm "q") [] []
+                        (some (.mk [.field none (onm "leaf") [] [] none ⟨52, 53⟩, .spread (onm "F") [] ⟨54, 58⟩] ⟨50, 60⟩))
+                        ⟨45, 60⟩] ⟨43, 62⟩) ⟨30, 62⟩ ],
+    loc := ⟨0, 62⟩ }
+
+/-- the hypothesis of `overlap_cost_poly` is satisfiable, and the bound is not vacuous on it -/
+example : locsDistinct ovDoc = true := by decide +kernel
+example : (overlapM GqlModel.Cost.exSchema ovDoc).1.nFC = 4 := by decide +kernel
+example : overlapBound ovDoc = 350 ∧ docSize ovDoc = 11 := by decide +kernel
+end GqlModel.Validate.Overlap
